@@ -60,7 +60,7 @@ def upvars(ctx, crate, tag):
                     u["by"].startswith("ref:Unique") or "RefCell" in ty or "&'a mut" in ty
                 ctx.ob("upvars" + tag, b.key, "captures:%s" % u["name"], not bad, b.loc(),
                        "%s captured %s" % (ty[:70], u["by"]))
-    ctx.floor("upvars" + tag, "captured variables of queued futures", n, 8)
+    ctx.floor("upvars" + tag, "captured variables of queued futures", n, 6)
 
 
 def consumers(ctx, crate, tag):
